@@ -161,19 +161,38 @@ Match(e, o) ==
             [] OTHER -> FALSE
 
 (* ------------------------------ the case partition used for finding keys ------------------------------ *)
+(* A finding key is  C07|<operator>|<case class>|<kind of divergence>.  The case class follows the case      *)
+(* structure of Expected: the disjunct that computed the expectation (for pow, pow3 and the shifts), the     *)
+(* signs of the operands where the operator's definition branches on them, a summary of the operand          *)
+(* representations and the representation the result must have.  When only the representation of the        *)
+(* result is wrong (kind "rep") the signs are left out.                                                      *)
 SignChar(x) == IF ZIsZero(x) THEN "0" ELSE IF x.s = 1 THEN "+" ELSE "-"
-\* "word" | "big" | "bigsmall" (a BigInt holding a word-sized value); operands written in source text ("s")
-\* are classified by the representation the literal must get
+\* "word" | "big" | "bigsmall" (a BigInt holding a word-sized value, non-canonical); operands written in source
+\* text ("s") are classified by the representation the literal must get
 RepName(x, r) == IF r = "w" THEN "word" ELSE IF r = "B" THEN (IF FitsWord(x) THEN "bigsmall" ELSE "big")
                  ELSE IF FitsWord(x) THEN "word" ELSE "big"
-OperandName(x, r, withSign) == RepName(x, r) \o (IF withSign THEN SignChar(x) ELSE "")
 Arity(op) == IF op \in UnaryOps THEN 1 ELSE IF op \in TernaryOps THEN 3 ELSE IF op \in TextOps THEN 0 ELSE 2
-OperandClass(C, withSign) ==
-  LET n == Arity(C.op) IN
-  IF n = 0 THEN "base=" \o ToString(C.base) \o ",valid=" \o (IF ParseValid(C.txt, IF C.op = "lit" THEN 0 ELSE C.base) THEN "1" ELSE "0")
-  ELSE "a=" \o OperandName(C.a, C.ra, withSign)
-       \o (IF n >= 2 THEN ",b=" \o OperandName(C.b, C.rb, withSign) ELSE "")
-       \o (IF n >= 3 THEN ",c=" \o OperandName(C.c, C.rc, withSign) ELSE "")
+RepSummary(C) ==
+  LET n == Arity(C.op)
+      names == {RepName(C.a, C.ra)} \cup (IF n >= 2 THEN {RepName(C.b, C.rb)} ELSE {}) \cup (IF n >= 3 THEN {RepName(C.c, C.rc)} ELSE {})
+  IN IF n = 0 THEN "text" ELSE IF "bigsmall" \in names THEN "noncanonical" ELSE IF "big" \in names THEN "big" ELSE "word"
+BranchName(C) ==
+  LET a == C.a b == C.b c == C.c op == C.op IN
+  CASE op = "pow3" -> IF b.s = -1 THEN "exponent<0" ELSE IF ZIsZero(c) THEN "modulus=0" ELSE IF c.s = -1 THEN "modulus<0" ELSE "modulus>0"
+    [] op = "pow" -> IF b.s = -1 THEN (IF ZIsZero(a) THEN "zero**negative" ELSE "exponent<0")
+                     ELSE IF ZIsZero(b) THEN "exponent=0" ELSE IF ZIsZero(a) THEN "base=0" ELSE IF a.m = One THEN "|base|=1" ELSE "a" \o SignChar(a)
+    [] op \in {"lshift", "rshift"} ->
+         "a" \o SignChar(a) \o "," \o (IF b.s = -1 THEN (IF FitsWord(b) THEN "count<0" ELSE "count<0,beyond-word")
+                                        ELSE IF IsSmallN(b.m) THEN "count<2^30" ELSE IF FitsWord(b) THEN "count>=2^30" ELSE "count>=2^63")
+    [] op \in TextOps -> "base=" \o ToString(C.base) \o ",valid=" \o (IF ParseValid(C.txt, IF op = "lit" THEN 0 ELSE C.base) THEN "1" ELSE "0")
+    [] op \in UnaryOps -> "a" \o SignChar(a)
+    [] OTHER -> "a" \o SignChar(a) \o ",b" \o SignChar(b)
+ResultRepName(e) ==
+  LET nm(x) == IF FitsWord(x) THEN "word" ELSE "big" IN
+  IF e.k = "int" THEN ",r=" \o nm(e.v) ELSE IF e.k = "pair" THEN ",r=" \o nm(e.v) \o "/" \o nm(e.v2) ELSE ""
+CaseClass(C, e, withBranch) ==
+  (IF withBranch THEN BranchName(C) \o "," ELSE "") \o "reps=" \o RepSummary(C)
+  \o (IF withBranch /\ C.op \in {"pow", "pow3"} THEN "" ELSE ResultRepName(e))
 DivergenceKind(e, o) ==
   IF o.k \in {"panic", "timeout"} THEN "observed=" \o o.k
   ELSE IF o.k = "exc" THEN (IF e.k = "exc" THEN "expected=exc:" \o e.ename \o ",observed=exc:" \o o.bases[1]
@@ -185,5 +204,5 @@ DivergenceKind(e, o) ==
   ELSE "value"
 FindingKey(C, e) ==
   LET kind == DivergenceKind(e, C.o) IN
-  "C07|" \o C.form \o C.op \o "|" \o OperandClass(C, kind # "rep") \o "|" \o kind
+  "C07|" \o C.form \o C.op \o "|" \o CaseClass(C, e, kind # "rep") \o "|" \o kind
 =============================================================================
